@@ -26,6 +26,12 @@ PLAN = {
             {"name": "n-hist-snap", "argv": [VNATIVE, "hist", "--property", "C03"]},
         ],
     },
+    "C05": {
+        "packages": ["vnative"],
+        "engines": [
+            {"name": "n-panics", "argv": [VNATIVE, "panic", "--property", "C05"]},
+        ],
+    },
     "C06": {
         "packages": ["vnative"],
         "engines": [
@@ -124,6 +130,13 @@ META = {
         "technique": "property-based testing with a history invariant: full snapshots of every readable executable mapping between all steps of generated install histories; diff must lie inside named targets' 16-byte entry slots or injector-created trampoline pages",
         "text": "480 (quick) / 1.6*10^4 (thorough) generated histories with ~6 full executable-memory snapshots each (program text, all shared objects, vdso, arenas, trampolines; ~10 MB per snapshot). Targets sit between live neighbours at +/-16 bytes in synthetic arenas (incl. the last slot of a page), next to another instantiation of the same generic function and next to libc neighbours. Every differing byte between consecutive snapshots must be within 16 bytes of a target named so far or inside a mapping the interposer saw the injector create; after the drop the diff against the first snapshot must be empty; never-named functions are called at every observation point.",
         "note": NATIVE_NOTE,
+    },
+    "C05": {
+        "level": "fault_enumeration",
+        "design_ref": "DESIGN.md §4 C05",
+        "technique": "property-based fault/crash-point enumeration: generated scripted test bodies with one panic source (10 kinds incl. interposer-injected allocation and mprotect failures) at every generated position, optionally caught in scope; oracle = script model of the number of panics + pristine bytes after the unwind + hook-time snapshot of the refused target + follow-up thread under a deadline",
+        "text": "2.4*10^3 (quick) / 1.2*10^5 (thorough) generated cases of 1..5 consecutive lifetimes (many per process): for every source kind and position the number of panics raised must equal the model's prediction (never two at once: an abort kills the worker and is a verdict), every function is byte-identical after the unwind, the refused target is unwritten at the very moment the panic is raised (snapshot taken in the panic hook), and afterwards a fresh thread creates an injector, installs, calls and drops within a deadline (a futex wait that outlives it is reported as an unreleased guard, any other overrun as inconclusive).",
+        "note": NATIVE_NOTE + " Excluded by construction: panics inside extern C/system fakes (abort by language rule) and faults injected during restoration. A failed mprotect strands the trampoline allocated just before it; that leak is outside this statement (and outside C12, which speaks of successful installations) and is only reported in evidence.",
     },
     "C06": {
         "level": "exploration",
